@@ -35,7 +35,18 @@ def fractions (j : Json) : Except String Json := do
   if cs.isEmpty || !positive cs then
     return Json.mkObj [("model", jstr "out-of-domain")]
   let s := sumRow mode cs
-  pure (Json.mkObj [
+  -- optional: the `components=` selection and the `avg` row
+  let keep : List Bool ← match j.getObjVal? "keep" with
+    | .ok k => (← getList k).mapM (fun b => b.getBool?)
+    | .error _ => pure (List.replicate cs.length true)
+  let weighted : Bool := match j.getObjVal? "weighted" with
+    | .ok (Json.bool b) => b
+    | _ => false
+  let ss := sumRowSel mode cs keep
+  let av := avgRow weighted mode cs keep
+  let selJ := Json.mkObj [("x", jarr jrat (select keep (xs mode cs))), ("X", jarr jrat (select keep (Xs mode cs))),
+    ("sum", Json.arr #[jrat ss.1, jrat ss.2]), ("avg", Json.arr #[jrat av.1, jrat av.2])]
+  pure (Json.mkObj [("sel", selJ),
     ("model", Json.mkObj [("x", jarr jrat (xs mode cs)), ("X", jarr jrat (Xs mode cs)),
       ("sum", Json.arr #[jrat s.1, jrat s.2]),
       ("norm", jrat (propNorm mode cs)), ("mass", jrat (compositeMass mode cs))]),
